@@ -209,10 +209,10 @@ theorem scan_escape (d : Char) (v rest : Str) : scan d true (escape v ++ rest) =
     rw [escape_cons]
     by_cases h : c = '"' ∨ c = '\\'
     · rw [if_pos h]
-      simp only [List.cons_append, List.nil_append, List.append_assoc]
+      simp only [List.cons_append, List.nil_append]
       rw [scan_esc, ih]
     · rw [if_neg h]
-      simp only [List.cons_append, List.nil_append, List.append_assoc]
+      simp only [List.cons_append, List.nil_append]
       rw [scan_plain d true c _ (fun e => h (Or.inl e)) (fun e => h (Or.inr e.1)), if_neg (by simp), ih]
 
 theorem balanced_quoted (d : Char) (v : Str) : Balanced d ('"' :: (escape v ++ ['"'])) := by
@@ -369,5 +369,421 @@ theorem parse_render (unq : Str → Str) (es : List (List Pair)) (h : WF es) :
       obtain ⟨ps, hps, rfl⟩ := List.mem_map.1 hx
       exact balanced_renderElem ps (h ps hps).2
 
+/-! ### canonical rendering of identities -/
+
+instance : DecidablePred KeyChar := fun c => by unfold KeyChar; infer_instance
+
+theorem fk_by : fieldOfKey "By".toList = some .by_ := by decide
+theorem fk_hash : fieldOfKey "Hash".toList = some .hash := by decide
+theorem fk_cert : fieldOfKey "Cert".toList = some .cert := by decide
+theorem fk_subject : fieldOfKey "Subject".toList = some .subject := by decide
+theorem fk_uri : fieldOfKey "URI".toList = some .uri := by decide
+theorem fk_dns : fieldOfKey "DNS".toList = some .dns := by decide
+
+theorem wf_quoted (k v : Str) (hk : ∀ c ∈ k, KeyChar c) : ({ key := k, quoted := true, value := v } : Pair).WF :=
+  { key := hk, bare := fun h => (by cases h), w1 := (by simp [AllWs]), w2 := (by simp [AllWs]), w3 := (by simp [AllWs]),
+    w4 := (by simp [AllWs]) }
+
+theorem wf_optPair (k : Str) (hk : ∀ c ∈ k, KeyChar c) (v : Option Str) : ∀ p ∈ optPair k v, p.WF := by
+  intro p hp
+  cases v with
+  | none => simp [optPair] at hp
+  | some v => simp [optPair] at hp; subst hp; exact wf_quoted k v hk
+
+theorem wf_pairsOf (enc : Str → Str) (e : Elem) : ∀ p ∈ pairsOf enc e, p.WF := by
+  intro p hp
+  simp only [pairsOf, List.mem_append, List.mem_map] at hp
+  rcases hp with ((((hp | hp) | hp) | hp) | hp) | ⟨d, _, rfl⟩
+  · exact wf_optPair _ (by decide) _ p hp
+  · exact wf_optPair _ (by decide) _ p hp
+  · exact wf_optPair _ (by decide) _ p hp
+  · exact wf_optPair _ (by decide) _ p hp
+  · exact wf_optPair _ (by decide) _ p hp
+  · exact wf_quoted _ _ (by decide)
+
+theorem pairsOf_ne_nil (enc : Str → Str) (e : Elem) (h : e ≠ Elem.empty) : pairsOf enc e ≠ [] := by
+  intro hp
+  apply h
+  obtain ⟨a, b, c, d, l, f⟩ := e
+  cases a <;> cases b <;> cases c <;> cases d <;> cases f <;> cases l <;>
+    simp [pairsOf, optPair, Elem.empty] at hp ⊢
+
+theorem foldl_dns (unq : Str → Str) (ds : List Str) (f : Elem) :
+    (ds.map fun d => ({ key := "DNS".toList, quoted := true, value := d } : Pair)).foldl (applyPair unq) f =
+      { f with dns := f.dns ++ ds } := by
+  induction ds generalizing f with
+  | nil => simp
+  | cons d r ih =>
+    simp only [List.map_cons, List.foldl_cons]
+    have hstep : applyPair unq f { key := "DNS".toList, quoted := true, value := d } = { f with dns := f.dns ++ [d] } := by
+      simp only [applyPair, fk_dns]
+    rw [ih, hstep]
+    simp
+
+theorem fold_optPair (unq : Str → Str) (f : Elem) (k : Str) (v : Option Str) :
+    (optPair k v).foldl (applyPair unq) f =
+      match v with
+      | none => f
+      | some v => applyPair unq f { key := k, quoted := true, value := v } := by
+  cases v <;> rfl
+
+theorem meaning_pairsOf (unq enc : Str → Str) (hinv : ∀ x, unq (enc x) = x) (e : Elem) :
+    meaning unq (pairsOf enc e) = e := by
+  rw [← fold_meaning]
+  obtain ⟨a, b, c, d, l, f⟩ := e
+  simp only [pairsOf, List.foldl_append, foldl_dns, fold_optPair]
+  cases a <;> cases b <;> cases c <;> cases d <;> cases f <;>
+    simp only [Option.map_some, Option.map_none, applyPair, fk_by, fk_hash, fk_cert, fk_subject, fk_uri, hinv, Elem.empty,
+      List.nil_append]
+
+theorem lastValue_replace (F : Field) (a b : List Pair) (p p' : Pair) (hk : p'.key = p.key)
+    (hF : fieldOfKey p.key ≠ some F) : lastValue F (a ++ p' :: b) = lastValue F (a ++ p :: b) := by
+  induction a with
+  | nil => simp only [List.nil_append, lastValue, hk, if_neg hF]
+  | cons x r ih => simp only [List.cons_append, lastValue, ih]
+
+theorem dnsValues_replace (a b : List Pair) (p p' : Pair) (hk : p'.key = p.key)
+    (hF : fieldOfKey p.key ≠ some .dns) : dnsValues (a ++ p' :: b) = dnsValues (a ++ p :: b) := by
+  induction a with
+  | nil => simp only [List.nil_append, dnsValues, hk, if_neg hF]
+  | cons x r ih => simp only [List.cons_append, dnsValues, ih]
+
+theorem parseElem_none (unq : Str → Str) (x : Str) : parseElem unq x = none ↔ strip x = [] := by
+  unfold parseElem
+  by_cases h : strip x = [] <;> simp [h]
+
+/-! ### the authenticator -/
+
+theorem selFirst_eq : selFirst = Xfcc.selectLiteral := by decide
+theorem selLast_ne : selLast ≠ Xfcc.selectLiteral := by decide
+theorem selectThen_eq : Xfcc.selectThen = 0 := by decide
+theorem selectElse_eq : Xfcc.selectElse = -1 := by decide
+
+theorem select_first (e : Elem) (r : List Elem) : select selFirst (e :: r) = some e := by
+  simp [select, selFirst_eq, selectThen_eq, pyIndex]
+
+theorem select_other (sel : Str) (h : sel ≠ Xfcc.selectLiteral) (xs : List Elem) (hne : xs ≠ []) :
+    select sel xs = some (xs.getLast hne) := by
+  unfold select
+  rw [if_neg h, selectElse_eq]
+  unfold pyIndex
+  have hlen : 1 ≤ xs.length := by cases xs with
+    | nil => exact absurd rfl hne
+    | cons a t => simp
+  simp only [show ¬ (0 : Int) ≤ -1 by decide, if_false, show (-(-1 : Int)).toNat = 1 by decide, hlen, if_true]
+  rw [← List.getLast?_eq_getElem?, List.getLast?_eq_some_getLast hne]
+
+theorem auth_some (unq : Str → Str) (hv : Bool) (sel : Str) (s : Str) (hs : s ≠ []) :
+    authenticate unq hv sel (some s) =
+      match parse unq s with
+      | [] => .failure Xfcc.emptyReason
+      | e :: es =>
+        match select sel (e :: es) with
+        | some x => finish hv x
+        | none => .failure "IndexError" := by
+  cases s with
+  | nil => exact absurd rfl hs
+  | cons c cs => rfl
+
+theorem render_ne_nil (es : List (List Pair)) (h : WF es) (hne : es ≠ []) : render es ≠ [] := by
+  cases es with
+  | nil => exact absurd rfl hne
+  | cons ps r =>
+    have hps := (h ps (by simp)).1
+    cases ps with
+    | nil => exact absurd rfl hps
+    | cons p r' =>
+      intro hnil
+      have : '=' ∈ render ((p :: r') :: r) := by
+        unfold render
+        apply mem_join_head
+        unfold renderElem
+        exact mem_join_head ';' '=' _ _ (eqSign_mem_renderPair p)
+      rw [hnil] at this
+      cases this
+
+/-! ### `unquote` is natural: it can be applied after parsing -/
+
+/-- URL-decode the three fields the parser URL-decodes -/
+def mapUnq (u : Str → Str) (e : Elem) : Elem := { e with cert := e.cert.map u, uri := e.uri.map u, by_ := e.by_.map u }
+
+theorem pairBody_natural (unq : Str → Str) (f : Elem) (pair : Str) :
+    pairBody unq (mapUnq unq f) pair = mapUnq unq (pairBody id f pair) := by
+  unfold pairBody
+  cases cutAt Xfcc.kvSep pair with
+  | none => rfl
+  | some kv =>
+    obtain ⟨k, v⟩ := kv
+    simp only
+    generalize lowerKey (strip k) = l
+    generalize dequote (strip v) = w
+    rw [listKey_eq, unquoteKeys_eq]
+    unfold setScalar
+    rw [keyHash_eq, keyCert_eq, keySubject_eq, keyUri_eq, keyBy_eq]
+    by_cases h1 : l = "hash".toList
+    · subst h1; rfl
+    by_cases h2 : l = "cert".toList
+    · subst h2; rfl
+    by_cases h3 : l = "subject".toList
+    · subst h3; rfl
+    by_cases h4 : l = "uri".toList
+    · subst h4; rfl
+    by_cases h5 : l = "dns".toList
+    · subst h5; rfl
+    by_cases h6 : l = "by".toList
+    · subst h6; rfl
+    simp only [if_neg h1, if_neg h2, if_neg h3, if_neg h4, if_neg h5, if_neg h6]
+
+theorem foldl_natural (unq : Str → Str) (L : List Str) (f : Elem) :
+    L.foldl (procPair unq) (mapUnq unq f) = mapUnq unq (L.foldl (procPair id) f) := by
+  induction L generalizing f with
+  | nil => rfl
+  | cons x r ih =>
+    simp only [List.foldl_cons]
+    rw [procPair_body, pairBody_natural, ← procPair_body, ih]
+
+theorem parseElem_natural (unq : Str → Str) (raw : Str) :
+    parseElem unq raw = (parseElem id raw).map (mapUnq unq) := by
+  unfold parseElem
+  by_cases h : strip raw = []
+  · simp [h]
+  · simp only [if_neg h, Option.map_some]
+    rw [← foldl_natural]
+    rfl
+
+theorem parse_natural (unq : Str → Str) (s : Str) : parse unq s = (parse id s).map (mapUnq unq) := by
+  unfold parse
+  generalize split Xfcc.elemDelim false s = L
+  induction L with
+  | nil => rfl
+  | cons x r ih =>
+    simp only [List.filterMap_cons]
+    rw [parseElem_natural unq x]
+    cases parseElem id x with
+    | none => simpa using ih
+    | some e => simpa using ih
+
 end Aux
+
+open Aux
+
+/-! ## the property theorems (obligations) -/
+
+/-- every function of the XFCC half of `_mtls.py` still has the shape the model transliterates -/
+theorem shape_ok :
+    Xfcc.splitRecognised = true ∧ Xfcc.parseRecognised = true ∧ Xfcc.unescapeRecognised = true ∧
+    Xfcc.cnRecognised = true ∧ Xfcc.authRecognised = true ∧
+    Xfcc.escNeedsQuote = true ∧ Xfcc.delimNeedsUnquoted = true ∧ Xfcc.headerName = "x-forwarded-client-cert".toList := by
+  decide
+
+/-- The splitter returns exactly the segments that were joined — nothing splits, nothing merges — whenever every
+segment is *balanced* (consumed by the quote/escape state machine without an active delimiter, ending unquoted). -/
+theorem split_render (d : Char) (hd : d ≠ '"') (segs : List Str) (hne : segs ≠ []) (h : ∀ p ∈ segs, Balanced d p) :
+    split d false (Spec.join d segs) = segs := by
+  rw [← joinWith_eq]; exact split_join d hd segs hne h
+
+/-- every rendered well-formed element is balanced, whatever text its quoted values contain -/
+theorem balanced_elements (es : List (List Pair)) (h : WF es) : ∀ seg ∈ es.map renderElem, Balanced ',' seg := by
+  intro x hx
+  obtain ⟨ps, hps, rfl⟩ := List.mem_map.1 hx
+  exact balanced_renderElem ps (h ps hps).2
+
+/-- ROUND TRIP over the whole grammar: for every well-formed abstract header (any number of elements and pairs,
+any text in quoted values, repeated / unknown / case-variant keys, optional white space) the parser returns
+exactly one element per rendered element, each with exactly the meaning of its pairs. -/
+theorem C43_parse_render (unq : Str → Str) (es : List (List Pair)) (h : WF es) :
+    parse unq (render es) = es.map (meaning unq) :=
+  parse_render unq es h
+
+/-- ROUND TRIP on identities: rendering any list of non-empty identities canonically (all values quoted,
+Cert/URI/By URL-encoded by any `enc` that `unq` inverts) and parsing gives the identities back. -/
+theorem C43_roundtrip (unq enc : Str → Str) (hinv : ∀ x, unq (enc x) = x) (es : List Elem)
+    (h : ∀ e ∈ es, e ≠ Elem.empty) : parse unq (renderIdent enc es) = es := by
+  unfold renderIdent
+  rw [parse_render]
+  · rw [List.map_map]
+    conv => rhs; rw [← List.map_id es]
+    apply List.map_congr_left
+    intro e _
+    exact meaning_pairsOf unq enc hinv e
+  · intro ps hps
+    obtain ⟨e, he, rfl⟩ := List.mem_map.1 hps
+    exact ⟨pairsOf_ne_nil enc e (h e he), wf_pairsOf enc e⟩
+
+/-- SELECTION: on a rendered header `first` yields the outcome of the first element's meaning and `last` (in fact
+any other value of `select_element`) that of the last element's meaning — `finish` sees nothing else. -/
+theorem C43_select (unq : Str → Str) (hv : Bool) (es : List (List Pair)) (h : WF es) (hne : es ≠ []) :
+    authenticate unq hv selFirst (some (render es)) = finish hv (meaning unq (es.head hne)) ∧
+    (∀ sel, sel ≠ selFirst →
+      authenticate unq hv sel (some (render es)) = finish hv (meaning unq (es.getLast hne))) := by
+  have hr := render_ne_nil es h hne
+  constructor
+  · rw [auth_some unq hv _ _ hr, parse_render unq es h]
+    cases es with
+    | nil => exact absurd rfl hne
+    | cons e r => simp only [List.map_cons, select_first, List.head_cons]
+  · intro sel hsel
+    rw [auth_some unq hv _ _ hr, parse_render unq es h]
+    have hm : es.map (meaning unq) ≠ [] := by simpa using hne
+    cases hes : es.map (meaning unq) with
+    | nil => exact absurd hes hm
+    | cons e r =>
+      simp only
+      rw [select_other sel (by rw [← selFirst_eq]; exact hsel) (e :: r) (by simp)]
+      simp only
+      congr 1
+      have : (e :: r).getLast (by simp) = (es.map (meaning unq)).getLast hm := by simp [hes]
+      rw [this, List.getLast_map]
+
+/-- the outcome depends on the selected element ONLY: headers that share their first (last) element get the
+same outcome under `first` (`last`), whatever the other elements contain -/
+theorem C43_select_only (unq : Str → Str) (hv : Bool) (e : List Pair) (r1 r2 : List (List Pair)) :
+    (WF (e :: r1) → WF (e :: r2) →
+      authenticate unq hv selFirst (some (render (e :: r1))) = authenticate unq hv selFirst (some (render (e :: r2)))) ∧
+    (WF (r1 ++ [e]) → WF (r2 ++ [e]) →
+      authenticate unq hv selLast (some (render (r1 ++ [e]))) = authenticate unq hv selLast (some (render (r2 ++ [e])))) := by
+  constructor
+  · intro h1 h2
+    rw [(C43_select unq hv _ h1 (by simp)).1, (C43_select unq hv _ h2 (by simp)).1]
+    rfl
+  · intro h1 h2
+    rw [(C43_select unq hv _ h1 (by simp)).2 selLast (by decide), (C43_select unq hv _ h2 (by simp)).2 selLast (by decide)]
+    simp
+
+/-- INJECTION: replace the value of any pair by ANY text `t`, written as a quoted string.  The header still has
+the same number of elements, every other element means what it meant, and in the attacked element only the
+field named by the attacked pair's key can change. -/
+theorem C43_injection (unq : Str → Str) (pre post : List (List Pair)) (a b : List Pair) (p : Pair) (t : Str)
+    (h : WF (pre ++ (a ++ p :: b) :: post)) :
+    let p' : Pair := { p with quoted := true, value := t }
+    parse unq (render (pre ++ (a ++ p' :: b) :: post)) =
+        pre.map (meaning unq) ++ meaning unq (a ++ p' :: b) :: post.map (meaning unq) ∧
+    parse unq (render (pre ++ (a ++ p :: b) :: post)) =
+        pre.map (meaning unq) ++ meaning unq (a ++ p :: b) :: post.map (meaning unq) ∧
+    (∀ F, fieldOfKey p.key ≠ some F → lastValue F (a ++ p' :: b) = lastValue F (a ++ p :: b)) ∧
+    (fieldOfKey p.key ≠ some .dns → dnsValues (a ++ p' :: b) = dnsValues (a ++ p :: b)) := by
+  intro p'
+  have hp' : p'.WF := by
+    have hp : p.WF := (h (a ++ p :: b) (by simp)).2 p (by simp)
+    exact { key := hp.key, bare := fun hq => (by cases hq), w1 := hp.w1, w2 := hp.w2, w3 := hp.w3, w4 := hp.w4 }
+  have h' : WF (pre ++ (a ++ p' :: b) :: post) := by
+    intro ps hps
+    simp only [List.mem_append, List.mem_cons] at hps
+    rcases hps with hps | rfl | hps
+    · exact h ps (by simp [hps])
+    · refine ⟨by simp, ?_⟩
+      intro x hx
+      simp only [List.mem_append, List.mem_cons] at hx
+      rcases hx with hx | rfl | hx
+      · exact (h (a ++ p :: b) (by simp)).2 x (by simp [hx])
+      · exact hp'
+      · exact (h (a ++ p :: b) (by simp)).2 x (by simp [hx])
+    · exact h ps (by simp [hps])
+  refine ⟨by rw [parse_render unq _ h']; simp, by rw [parse_render unq _ h]; simp, ?_, ?_⟩
+  · intro F hF; exact lastValue_replace F a b p p' rfl hF
+  · intro hF; exact dnsValues_replace a b p p' rfl hF
+
+/-- REJECTION: no header → `proxy_required`; a header that is non-empty as a string and parses to zero
+elements → `invalid_credential`; the literally empty string → `proxy_required` (DESIGN §7.3 accepts either). -/
+theorem C43_missing (unq : Str → Str) (hv : Bool) (sel : Str) :
+    authenticate unq hv sel none = .failure proxyRequired ∧
+    (∀ s, s ≠ [] → parse unq s = [] → authenticate unq hv sel (some s) = .failure invalidCredential) ∧
+    authenticate unq hv sel (some []) = .failure proxyRequired := by
+  refine ⟨rfl, ?_, rfl⟩
+  intro s hs hp
+  rw [auth_some unq hv sel s hs, hp]
+  rfl
+
+/-- a header has no element exactly when every comma-separated piece is white space -/
+theorem C43_zero_elements (unq : Str → Str) (s : Str) :
+    parse unq s = [] ↔ ∀ piece ∈ split ',' false s, ∀ c ∈ piece, isWs c = true := by
+  unfold parse
+  rw [elemDelim_eq]
+  generalize split ',' false s = L
+  induction L with
+  | nil => simp
+  | cons x r ih =>
+    simp only [List.filterMap_cons, List.mem_cons, forall_eq_or_imp]
+    cases hpe : parseElem unq x with
+    | none =>
+      have hx := (parseElem_none unq x).1 hpe
+      simp only [ih]
+      constructor
+      · intro hr; exact ⟨fun c hc => by rw [← isSpace_eq]; exact strip_eq_nil hx c hc, hr⟩
+      · intro hr; exact hr.2
+    | some e =>
+      simp only
+      constructor
+      · intro hr; cases hr
+      · intro hr
+        have : strip x = [] := strip_allSpace (fun c hc => by rw [isSpace_eq]; exact hr.1 c hc)
+        rw [(parseElem_none unq x).2 this] at hpe
+        cases hpe
+
+/-- for EVERY header value (arbitrary strings included) the closure does one of three things: reject as missing,
+reject as empty, or finish with an element the parser produced — the first for `first`, the last otherwise. -/
+theorem C43_outcomes (unq : Str → Str) (hv : Bool) (sel : Str) (hdr : Option Str) :
+    (authenticate unq hv sel hdr = .failure proxyRequired ∧ (hdr = none ∨ hdr = some [])) ∨
+    (∃ s, hdr = some s ∧ s ≠ [] ∧ parse unq s = [] ∧ authenticate unq hv sel hdr = .failure invalidCredential) ∨
+    (∃ s e r, hdr = some s ∧ parse unq s = e :: r ∧
+      authenticate unq hv sel hdr = finish hv (if sel = selFirst then e else (e :: r).getLast (by simp))) := by
+  cases hdr with
+  | none => exact Or.inl ⟨rfl, Or.inl rfl⟩
+  | some s =>
+    by_cases hs : s = []
+    · subst hs; exact Or.inl ⟨rfl, Or.inr rfl⟩
+    · right
+      cases hp : parse unq s with
+      | nil => exact Or.inl ⟨s, rfl, hs, hp, (C43_missing unq hv sel).2.1 s hs hp⟩
+      | cons e r =>
+        refine Or.inr ⟨s, e, r, rfl, hp, ?_⟩
+        rw [auth_some unq hv sel s hs, hp]
+        simp only
+        by_cases hsel : sel = selFirst
+        · subst hsel; rw [select_first]; simp
+        · rw [select_other sel (by rw [← selFirst_eq]; exact hsel) (e :: r) (by simp)]; simp [hsel]
+
+/-- `urllib.parse.unquote` is natural in the parser: parsing with any `unq` equals parsing with the identity and
+URL-decoding Cert/URI/By afterwards.  Hence (second part) a finite table that agrees with the real function on
+the final Cert/URI/By texts gives the same parse — the protocol the correspondence harness uses. -/
+theorem C43_unq_natural (unq : Str → Str) (s : Str) :
+    parse unq s = (parse id s).map (mapUnq unq) ∧
+    (∀ tbl : Str → Str,
+      (∀ e ∈ parse id s, ∀ v, (e.cert = some v ∨ e.uri = some v ∨ e.by_ = some v) → tbl v = unq v) →
+      parse tbl s = parse unq s) := by
+  refine ⟨parse_natural unq s, ?_⟩
+  intro tbl h
+  rw [parse_natural tbl s, parse_natural unq s]
+  apply List.map_congr_left
+  intro e he
+  obtain ⟨a, b, c, d, l, f⟩ := e
+  have hb := h _ he
+  simp only [mapUnq, Elem.mk.injEq, true_and]
+  refine ⟨?_, ?_, ?_⟩
+  · cases b with
+    | none => rfl
+    | some v => simp [hb v (Or.inl rfl)]
+  · cases d with
+    | none => rfl
+    | some v => simp [hb v (Or.inr (Or.inl rfl))]
+  · cases f with
+    | none => rfl
+    | some v => simp [hb v (Or.inr (Or.inr rfl))]
+
+/-! ### non-vacuity and concrete instances -/
+
+/-- the classic payload: a quoted Subject containing `",Hash=evil;Subject="CN=admin` stays one value of one element -/
+example :
+    parse id (render [[{ key := "Hash".toList, quoted := false, value := "a".toList },
+                       { key := "Subject".toList, quoted := true, value := "CN=x\",Hash=evil;Subject=\"CN=admin".toList }],
+                      [{ key := "Subject".toList, quoted := true, value := "CN=proxy".toList }]]) =
+      [{ hash := some "a".toList, subject := some "CN=x\",Hash=evil;Subject=\"CN=admin".toList },
+       { subject := some "CN=proxy".toList }]:= by decide +kernel
+
+example : parse id ",, ,".toList = [] := by decide +kernel
+example : authenticate id false selFirst (some ",".toList) = .failure invalidCredential := by decide +kernel
+example : authenticate id false selLast none = .failure proxyRequired := by decide +kernel
+example : authenticate id false selLast (some "Subject=\"CN=a\",Subject=\"O=x,CN=b\"".toList) =
+    .ok "b".toList [("subject", .str "O=x,CN=b".toList)] := by decide +kernel
+
 end VgiVerif.C43
